@@ -20,12 +20,12 @@ CHECKS = {
     "C14": ("TempTrace contract (ScopeRestoresStack, ContentIntactUntilScopeEnds, NoTwoLiveThreadsShareAStack, AdoptBeforeCreate, TemporaryMemoryDisjoint, AllFreedAtExit) on nested-scope histories, API-level interleavings and concurrent blocks interleaved at the guarded hook points by a seeded scheduler; TempStackList design model over all interleavings of 2-4 threads", "9 C14"),
     "C16": ("ReportTrace contract (BadReleaseReportedOrStopped, ReportedBeforeStateChange) on valid prefixes followed by one invalid release in a child process, SeqTrace ValidReleaseNeverReported on valid histories; SmallChunkSearch design model", "9 C16"),
     "C17": ("FenceTrace contract (OverflowReportedAtFirstDirtyByte, InBoundsNeverReported, FreshMemoryIsNewPattern, NeighboursUntouched, FencesExistWhenEnabled) with one byte written at every fence offset, system allocations observed through linker interposition; Fence design model", "9 C17"),
+    "C10": ("ContainerTrace contract (ReleaseSameLeaf, ReleaseSameShape, BoundAsPropagationSays, EqIffInterchangeable, ContentsMatchTwin, NodeRequestWithinConstant, EveryNodeReturned) for 12 container kinds x 13 element types on two allocator objects; Propagate design model generates the operation sequences", "9 C10"),
+    "C11": ("ConstructTrace contract (PieceAfterObjectInsideBlock, PiecesDisjoint, PieceAligned, OverflowThrowsFixedMemory, ObjectDestroyedOnce, BlockReleasedOnceSameSizeAlign, CloneIndependent); Joint design model", "9 C11"),
+    "C20": ("ConstructTrace contract (EachConstructedDestroyedOnce, NoDestroyOfUnconstructed, MemoryReturnedSameShape, ExceptionPropagatesUnchanged, AllocatorUsableAfter, JointMemoryReturned) with a throw at every construction index; Construct design model", "9 C20"),
 }
 
 NOT_YET = {
-    "C10": "check under construction in this session (containers driver + Propagate model)",
-    "C11": "check under construction in this session (joint driver + JointContract)",
-    "C20": "check under construction in this session (construct driver + Construct model)",
 }
 
 
